@@ -146,14 +146,15 @@ def varOfHss (dim : Nat) (hss : List (List K)) (flag : Bool) : Option (List K) :
     | some l => some (hss.dropLast.flatten ++ l.drop (dim ^ 2))
   else some hss.flatten
 
-/-- stacked → var. Stacked vectors shorter than one HS (Python would use negative slice bounds) and
-`dim = 0` are outside the modelled domain (`none`). -/
+/-- stacked → var. For a stacked vector shorter than one HS (`num_outcomes = 0`) the Python slice bounds are negative,
+`np.s_[-H : -H + d²]`; numpy clips them, so the first `len + d² − H` entries are deleted (nothing if that is ≤ 0) and no error is
+raised. `dim = 0` (ZeroDivisionError) is `none`. -/
 def mpVarOfStacked (dim : Nat) (st : List K) (flag : Bool) : Option (List K) :=
   if flag then
     if dim = 0 then none
     else
       let m := st.length / hsSize dim
-      if m = 0 then none
+      if m = 0 then some (st.drop (st.length + dim ^ 2 - hsSize dim))
       else
         let p := hsSize dim * (m - 1)
         some (st.take p ++ st.drop (p + dim ^ 2))           -- np.delete(st, np.s_[p : p + dim**2])
